@@ -5,8 +5,10 @@
 //! * `world`   — one long-lived `CognitiveNexus` over `InMemory`; records histories and queries beliefs
 //!               through the real executor (KML `ASSERT` / `RETRACT ASSERTION`, KQL `BELIEF`, `BELIEF SLOT`)
 //! * `oracle`  — comparison of an observed projection with the model and the stand-alone laws
+//! * `runner`  — batches groups of histories onto a World, applies the oracle, replays artefacts
 
 pub mod case;
 pub mod model;
 pub mod oracle;
+pub mod runner;
 pub mod world;
